@@ -346,6 +346,17 @@ def translate(repo):
     out.append(_def('g_sdp_in_range', ['id', 'lo', 'hi'], 'bool',
                     coq_expr(comps[0].generators[0].ifs[0],
                              {'attribute.id': 'id', 'id_range_start': 'lo', 'id_range_end': 'hi'}, fn.name)))
+    # on_channel_close: the saved entry of the closing channel is dropped unconditionally, and the served state
+    # (channel, current_response) is reset exactly when the closing channel is the one being served
+    fn = S.func('Server', 'on_channel_close')
+    body = [st for st in fn.body if not _is_logging(st) and not _is_docstring(st)]
+    pop_uncond = int(len(body) >= 1 and isinstance(body[0], ast.Expr)
+                     and ast.unparse(body[0].value) == 'self.pending_responses.pop(channel, None)')
+    ifs = [st for st in body if isinstance(st, ast.If)]
+    guard_current = int(len(ifs) == 1 and ast.unparse(ifs[0].test) == 'channel is self.channel' and not ifs[0].orelse)
+    resets = [ast.unparse(x) for x in ifs[0].body] if len(ifs) == 1 else []
+    out.append(f"Definition g_sdp_close_shape : list Z := {_zlist([pop_uncond, guard_current, int('self.channel = None' in resets), int('self.current_response = None' in resets), len(body)])}."
+               '   (* pop unconditional, guard is `channel is self.channel`, resets channel, resets current_response, statements *)')
     # client loops: request constants and the termination test
     consts = {}
     for meth, kw in (('search_services', 'maximum_service_record_count'), ('search_attributes', 'maximum_attribute_byte_count'),
